@@ -17,6 +17,13 @@ NEEDS = {
     "C03_Robin": ["ghost"], "C03_Periodic": ["ghost"], "C03_InteriorKept": ["ghost"],
     "C03_RowsSatisfied": ["ghost", "Mbc", "Rbc"], "C03_RowsEncodeRobin": ["Mbc", "Rbc"],
     "C03_RowsOnGhostOnly": ["Mbc", "Rbc"], "C03_ScaleInvariant": ["ghost", "Mbc", "Rbc", "ghostS"],
+    "C03_RobinCtor": ["f_ctor"], "C03_RobinApply": ["f_apply"], "C03_RobinSolve": ["f_solve"],
+    "C03_RobinExplicit": ["f_explicit"], "C03_PeriodicCtor": ["f_ctor"], "C03_PeriodicApply": ["f_apply"],
+    "C03_PeriodicSolve": ["f_solve"], "C03_PeriodicExplicit": ["f_explicit"], "C03_InteriorKeptCtor": ["f_ctor"],
+    "C03_SolveRowsSatisfied": ["f_solve", "Mbc", "Rbc"], "C03_PlotProfile": ["f_solve", "profile"],
+    "C01_ClosedDiffusionMid": ["Mdiff"], "C01_ClosedCentralMid": ["Mconv"], "C01_ClosedUpwindMid": ["Mup"],
+    "C01_ClosedDivergenceMid": ["divu"], "C01_PeriodicDiffusion": ["Mdiff", "volume"],
+    "C01_PeriodicCentral": ["Mconv", "volume"], "C01_PeriodicUpwind": ["Mup", "volume"],
     "C04_DiffInterior": ["Mdiff"], "C04_ConvInterior": ["Mconv"], "C04_UpInterior": ["Mup"],
 }
 # observed outputs that have a reference counterpart (conformance tripwire)
